@@ -26,7 +26,7 @@ func (s *c09Scope) lookup(n string) (string, bool) {
 	return "", false
 }
 
-var c09Kinds = []string{"for", "fn", "partial", "cf", "cfd", "bw", "blk", "if", "forit", "formap", "cfar"}
+var c09Kinds = []string{"for", "fn", "partial", "cf", "cfd", "bw", "blk", "if", "forit", "formap", "cf2", "cfar"}
 
 type c09Level struct {
 	kind   int
@@ -147,6 +147,16 @@ func (g *c09Gen) construct(l int, parent *c09Scope) (src, exp string) {
 	case "if":
 		bs, be := g.body(l, parent) // if: same scope
 		return `<%= if (true) { %>` + bs + `<% } %>`, be
+	case "cf2":
+		// one stored block used twice: first with data, then without (innermost level only: no nested construct)
+		first := &c09Scope{vars: map[string]string{fmt.Sprintf("d%d", l): fmt.Sprintf("D%d", l)}, parent: parent}
+		second := &c09Scope{vars: map[string]string{}, parent: parent}
+		bsrc := g.actionsSrc(l) + fmt.Sprintf("(cf2-%d:", l) + g.probesSrc() + ")"
+		g.actionsModel(l, first)
+		e1 := fmt.Sprintf("(cf2-%d:", l) + g.probesExp(first) + ")"
+		g.actionsModel(l, second)
+		e2 := fmt.Sprintf("(cf2-%d:", l) + g.probesExp(second) + ")"
+		return fmt.Sprintf(`<%% contentFor("cc%d") { %%>`, l) + bsrc + fmt.Sprintf(`<%% } %%><%%= contentOf("cc%d", %s) %%>|<%%= contentOf("cc%d") %%>`, l, d, l), e1 + "|" + e2
 	case "cfar":
 		// block defined at top level (hoisted), used here: runs in a child of the TOP scope
 		far := &c09Scope{vars: map[string]string{}, parent: g.top}
@@ -209,7 +219,7 @@ func init() {
 			return s
 		},
 		Run:  c09Run,
-		Rule: "nestings of {for over a slice / an Iterator / a map, user-function call, partial with data, contentFor+contentOf with data, contentOf default block with data, block helper using BlockWith(child), block helper using Block(), if, contentFor defined at top level and used at the inner level}; at each level every subset of {let fresh_l, shadowing let o, assignment o = …}; every name (o, fresh names, loop variables, parameters, data names of every level) is probed at the end of each body, after each construct closes and at the end of the template; compared with an environment-chain reference model (let/assign bind in the current scope, lookup outward; for/call/partial/contentOf/BlockWith open a scope, if and Block() do not; a far contentFor block runs in a child of its definition scope). Non-trivial: depth >= 2 with at least one binding action.",
+		Rule: "nestings of {for over a slice / an Iterator / a map, user-function call, partial with data, contentFor+contentOf with data, contentOf default block with data, block helper using BlockWith(child), block helper using Block(), if, contentFor defined at top level and used at the inner level, one contentFor block used twice (with and without data)}; at each level every subset of {let fresh_l, shadowing let o, assignment o = …}; every name (o, fresh names, loop variables, parameters, data names of every level) is probed at the end of each body, after each construct closes and at the end of the template; compared with an environment-chain reference model (let/assign bind in the current scope, lookup outward; for/call/partial/contentOf/BlockWith open a scope, if and Block() do not; a far contentFor block runs in a child of its definition scope). Non-trivial: depth >= 2 with at least one binding action.",
 		Bound: func(th bool) string {
 			if th {
 				return "depth <=3, all 8 action subsets per level"
@@ -225,8 +235,8 @@ func c09Run(t *engine.T, shard string) {
 	run := func(levels []c09Level) {
 		lv := append([]c09Level{}, levels...)
 		for i := 0; i < len(lv)-1; i++ {
-			if c09Kinds[lv[i].kind] == "cfar" {
-				return // cfar is only generated as the innermost level
+			if k := c09Kinds[lv[i].kind]; k == "cfar" || k == "cf2" {
+				return // cfar / cf2 are only generated as the innermost level
 			}
 		}
 		var d []string
